@@ -14,6 +14,7 @@ func CheckC02(sc Scenario, rec *Rec) error {
 	var tr *c02Tracker
 	popSize := sc.Opts.PopSize
 	return runScenario(sc, epochHooks{
+		turnoverMustSucceed: true,
 		built: func(pop *genetics.Population, _ *neat.Options) error {
 			tr = newC02Tracker(pop)
 			if err := checkPartition(pop, popSize); err != nil {
